@@ -56,7 +56,7 @@ PROPS = {
     "C08": {"units": ["ACT", "BLD", "RELAY", "CLN", "CFG"], "level": "proof", "assume": ACTORS,
             "not_covered": ["not covered: 'at least once' is C04's liveness"]},
     "C09": {"units": ["CFG", "CLN"], "level": "proof", "assume": CFGA,
-            "not_covered": ["not covered: YAML -> yaml::Project (A-yaml); reference parsing inside transform_target (bounded Kani harness of C19); termination of the recursion is not proved (no decreases measure yet), so 'a cyclic project never hangs' rests on the ancestor-chain check [C09.acyclic] only; soundness ('every key is reachable from a root') not proved"]},
+            "not_covered": ["not covered: YAML -> yaml::Project (A-yaml); reference parsing inside transform_target (bounded Kani harness of C19); termination of the import loader add_project (depends on the file system being finite; A-yaml); soundness ('every key is reachable from a root') not proved"]},
     "C10": {"units": ["BLD", "ACT", "RELAY", "CLN"], "level": "proof", "assume": ACTORS,
             "not_covered": ["not covered: any latency bound; grandchildren of the shell; the hand-off from the signal handler task"]},
     "C11": {"units": ["ACT", "RELAY"], "level": "proof", "assume": ACTORS},
